@@ -6,6 +6,7 @@ import (
 	"strconv"
 	"strings"
 
+	"github.com/HobbyOSs/gosk/pkg/cpu"
 	"github.com/HobbyOSs/gosk/pkg/ocode"
 	"github.com/HobbyOSs/gosk/pkg/variantstack"
 )
@@ -75,7 +76,7 @@ func processOcode(oc ocode.Ocode, ctx *CodeGenContext, machineCode *[]byte) ([]b
 
 	// Check if the instruction is a no-parameter instruction handled by opcodeMap
 	if _, exists := opcodeMap[oc.Kind]; exists {
-		return handleNoParamOpcode(oc), nil
+		return handleNoParamOpcode(oc, ctx.BitMode), nil
 	}
 
 	switch oc.Kind {
@@ -141,10 +142,10 @@ func processOcode(oc ocode.Ocode, ctx *CodeGenContext, machineCode *[]byte) ([]b
 	}
 }
 
-func handleNoParamOpcode(ocode ocode.Ocode) []byte {
+func handleNoParamOpcode(ocode ocode.Ocode, bitMode cpu.BitMode) []byte {
 	log.Printf("debug: handleNoParamOpcode: %s\n", ocode.Kind)
 	if _, exists := opcodeMap[ocode.Kind]; exists {
-		return GenerateX86NoParam(ocode)
+		return GenerateX86NoParamMode(ocode, bitMode)
 	}
 	return nil
 }
